@@ -5,6 +5,7 @@ mod gen;
 mod ackrun;
 mod sketchrun;
 mod stress;
+mod hist;
 
 use std::io::{BufRead, BufWriter, Write};
 use std::time::Duration;
@@ -108,6 +109,21 @@ fn main() {
                                       final_out.as_mut().map(|writer| writer as &mut dyn Write));
             if let Some(writer) = final_out.as_mut() { writer.flush().unwrap(); }
             println!("STRESS {}", serde_json::json!({"rounds": outcome.rounds, "ops": outcome.ops, "stall": outcome.stall}));
+            if outcome.stall.is_some() { std::process::exit(3); }
+        }
+        "hist" => {
+            let seed: u64 = arg_value(&args, "--seed").map(|value| value.parse().unwrap()).unwrap_or(1);
+            let rounds: usize = arg_value(&args, "--rounds").map(|value| value.parse().unwrap()).unwrap_or(10);
+            let writers: usize = arg_value(&args, "--writers").map(|value| value.parse().unwrap()).unwrap_or(3);
+            let readers: usize = arg_value(&args, "--readers").map(|value| value.parse().unwrap()).unwrap_or(4);
+            let ops: usize = arg_value(&args, "--ops").map(|value| value.parse().unwrap()).unwrap_or(300);
+            let timeout_ms: u64 = arg_value(&args, "--timeout-ms").map(|value| value.parse().unwrap()).unwrap_or(20_000);
+            std::panic::set_hook(Box::new(|_| {}));
+            let out_path = arg_value(&args, "--out").expect("--out");
+            let mut out = BufWriter::new(std::fs::File::create(&out_path).expect("create out"));
+            let outcome = hist::run(seed, rounds, writers, readers, ops, Duration::from_millis(timeout_ms), &mut out);
+            out.flush().unwrap();
+            println!("STRESS {}", serde_json::json!({"rounds": outcome.rounds, "ops": outcome.calls, "stall": outcome.stall}));
             if outcome.stall.is_some() { std::process::exit(3); }
         }
         "gen" => {
